@@ -346,7 +346,12 @@ func (r *Renderer) bare(n *Node, c ectx) string {
 		}
 		return n.Name + "(" + strings.Join(parts, ", ") + ")"
 	case UserCall:
-		return n.Name + "(" + r.list(n.A) + ")"
+		parts := make([]string, len(n.A))
+		for i, a := range n.A {
+			// a bare name may be an array argument: it must stay a bare name
+			parts[i] = r.expr(a, pLowest, ectx{}, a.K == Var)
+		}
+		return n.Name + "(" + strings.Join(parts, ", ") + ")"
 	case Group:
 		return "(" + r.expr(n.A[0], pLowest, ectx{}, false) + ")"
 	case Multi:
